@@ -369,8 +369,8 @@ def tables(chk, P):
 
 def _zero(x):
     x = _strip(x)
-    while isinstance(x, list) and x[:1] == ["cast"]:
-        x = _strip(x[-1])
+    while isinstance(x, list) and (x[:1] == ["cast"] or (x[:1] == ["ctor"] and len(x) == 3 and len(x[2]) == 1)):
+        x = _strip(x[-1] if x[0] == "cast" else x[2][0])
     return isinstance(x, list) and x[:1] == ["lit"] and str(x[1]) in ("0", "0.0", "0.")
 
 
@@ -388,8 +388,11 @@ def _coef_at(x, fld):
     return None
 
 
-def _size_of(x, v):
+def _size_of(x, v, decls=None):
     x = _strip(x)
+    n = 4
+    while decls and n and isinstance(x, list) and x[:1] == ["var"] and isinstance(decls.get(x[1]), list):
+        x, n = _strip(decls[x[1]]), n - 1
     while isinstance(x, list) and x[:1] == ["cast"]:
         x = _strip(x[-1])
     return isinstance(x, list) and x[0] in ("call", "dcall") and str(x[1]).split("::")[-1] == "size" and sx_find(x, lambda y: y == ["var", v]) != []
@@ -412,6 +415,11 @@ def linear(chk, P):
     f = one("Linear::calcValue")
     cidx = None
     if f:
+        dl = {}
+        for _, _, d in f.events(lambda d: d["k"] == "decl"):
+            dl[d["var"]] = d.get("init") if d["var"] not in dl else None       # single-declaration locals only
+        for _, _, q in f.events(lambda q: q["k"] == "assign" and isinstance(q.get("lhs"), list) and q["lhs"][:1] == ["var"]):
+            dl[q["lhs"][1]] = None                                             # ... that are never reassigned
         acc = [q for _, _, q in f.events(lambda q: q["k"] == "assign" and q.get("op") == "+=" and q.get("lhs") == ["var", "value"])]
         prods, consts = [], []
         for q in acc:
@@ -431,9 +439,9 @@ def linear(chk, P):
             iv = cs[0][1] if ok else None
             conds = [blk["term"]["cond"] for blk in f.blocks.values() if blk.get("term") and blk["term"].get("k") == "for"]
             decl0 = [d for _, _, d in f.events(lambda d: d["k"] == "decl" and d.get("var") == iv)]
-            ok = ok and len(conds) == 1 and conds[0][:2] == ["op", "<"] and conds[0][2] == ["var", iv] and _size_of(conds[0][3], "x") and len(decl0) == 1 and _zero(decl0[0].get("init"))
+            ok = ok and len(conds) == 1 and conds[0][:2] == ["op", "<"] and conds[0][2] == ["var", iv] and _size_of(conds[0][3], "x", dl) and len(decl0) == 1 and _zero(decl0[0].get("init"))
             k0 = _coef_at(consts[0][1], "coefficients")
-            ok = ok and k0 is not None and _size_of(k0, "x")
+            ok = ok and k0 is not None and _size_of(k0, "x", dl)
         chk.judge(ok, "LINEAR", "Linear:value=sum(x[i]*c[i],i<x.size())+c[x.size()]", f.loc, "%d products, %d other terms" % (len(prods), len(consts)))
         v0 = [d for _, _, d in f.events(lambda d: d["k"] == "decl" and d.get("var") == "value")]
         chk.judge(len(v0) == 1 and _zero(v0[0].get("init")), "LINEAR", "Linear:accumulator-starts-at-zero", f.loc, "")
